@@ -8,7 +8,10 @@ open Jrpc.Gen Jrpc.Gen.Facts Jrpc.Tie
 
 /-- `ServerOptions.concurrency` is the model's floor/default rule -/
 theorem concurrency_matches (sNil : Bool) (conc ncpu : Int) :
-    Funcs.concurrency sNil conc ncpu = Jrpc.Sem.concurrency sNil conc ncpu := rfl
+    Funcs.concurrency sNil conc ncpu = Jrpc.Sem.concurrency sNil conc ncpu := by
+  -- independent of how the source spells the guard (`s == nil || c < 1`, its negation, a switch)
+  unfold Funcs.concurrency Jrpc.Sem.concurrency
+  cases sNil <;> by_cases h : conc < 1 <;> simp [h] <;> omega
 
 /-- the semaphore is used at exactly one acquire and one release site, both in `invoke` -/
 theorem sem_sites : semSites.map (·.what) = ["Acquire", "Release"] := by decide
